@@ -270,7 +270,7 @@ def fastR (c : Cx) (k : Nat) (raw : List (List Int)) (names : Option (List Strin
   hx buf ++ s!"@{fastReplaceLastIndex c.fl raw k}"
 
 def fastP (c : Cx) (raw : List (List Int)) (lim : Option Nat) : String :=
-  "[" ++ joinWith "," ((fastSplitOld c.units raw lim).map hxo) ++ "]@0"
+  "[" ++ joinWith "," ((fastSplit c.units raw lim).map hxo) ++ "]@0"
 
 def opPred (f : List String) : String :=
   let flags := f.getD 1 "-"
